@@ -111,28 +111,39 @@ def java_batch(exe, progs, d, q_levels, timeout=60, extra=(), jobs=None):
             else:
                 files[key] = jf
     cp = ":".join(jars())
-    todo = dict(files)
-    javac_log = ""
-    for attempt in range(4):
-        if not todo:
-            break
-        rc, out, err = C.run(["javac", "-nowarn", "-proc:none", "-cp", cp, "-d", d + "/cls"] + sorted(todo.values()),
-                             cwd=d, timeout=900)
-        javac_log = (out + err)
-        if rc == 0:
-            break
-        # files named in error lines are rejected by javac: a violation of the property for those programs
-        badfiles = set(re.findall(r"^(\S+\.java):\d+: error", javac_log, re.M))
-        hit = [k for k, f in todo.items() if f in badfiles or os.path.basename(f) in {os.path.basename(b) for b in badfiles}]
-        if not hit:
-            for k in todo:
-                res[k] = {"rc": rc, "status": "javac-error", "out": "", "err": javac_log[-1500:], "stage": "javac"}
-            todo = {}
-            break
-        for k in hit:
-            msg = "\n".join(l for l in javac_log.split("\n") if os.path.basename(todo[k]) in l)[:1500]
-            res[k] = {"rc": rc, "status": "javac-error", "out": "", "err": msg, "stage": "javac"}
-            del todo[k]
+
+    def compile_chunk(chunk):
+        """ONE javac for the chunk; files javac rejects are taken out (a violation for those programs) and the rest is
+        compiled again.  Returns (keys that compiled, {key: javac-error result})."""
+        todo, bad, log = dict(chunk), {}, ""
+        for attempt in range(25):
+            if not todo:
+                break
+            rc, out, err = C.run(["javac", "-nowarn", "-proc:none", "-Xmaxerrs", "100000", "-cp", cp, "-d", d + "/cls"] +
+                                 sorted(todo.values()), cwd=d, timeout=1800)
+            log = out + err
+            if rc == 0:
+                return list(todo), bad
+            badfiles = {os.path.basename(x) for x in re.findall(r"^(\S+\.java):\d+: error", log, re.M)}
+            hit = [k for k, f in todo.items() if os.path.basename(f) in badfiles]
+            if not hit:
+                break
+            for k in hit:
+                msg = "\n".join(l for l in log.split("\n") if os.path.basename(todo[k]) in l)[:1500]
+                bad[k] = {"rc": rc, "status": "javac-error", "out": "", "err": msg, "stage": "javac"}
+                del todo[k]
+        for k in todo:                          # javac never got through: nothing of this chunk may be run
+            bad[k] = {"rc": 1, "status": "javac-error", "out": "", "err": log[-1500:], "stage": "javac"}
+        return [], bad
+    items = sorted(files.items(), key=lambda kv: kv[1])
+    size = 120
+    chunks = [dict(items[i:i + size]) for i in range(0, len(items), size)]
+    todo = {}
+    with concurrent.futures.ThreadPoolExecutor(max(1, min(4, C.NCPU // 4))) as ex:
+        for okk, bad in ex.map(compile_chunk, chunks):
+            res.update(bad)
+            for k in okk:
+                todo[k] = files[k]
 
     def runj(key):
         unit = "%sq%d" % key
@@ -267,6 +278,14 @@ class Family:
     def lit(self, v):
         return "%d" % v if v >= 0 else "(-%d)" % -v
 
+    def atom(self):
+        """a variable, a literal, or a call (never an infix operator application)"""
+        for _ in range(20):
+            s, v = self.iexpr(1)
+            if not s.startswith("(") or s.startswith("(#") or s.startswith("(-") and s[2:3].isdigit():
+                return s, v
+        return self.iexpr(0)
+
     # integer expressions: (source, value); every node inside int32
     def iexpr(self, depth=2):
         r = self.rng
@@ -277,13 +296,15 @@ class Family:
             v = r.choice([0, 1, 2, 3, 7, 10, 255, 1000, 46340, 65536, r.randrange(-50, 50), r.randrange(-100000, 100000)])
             return self.lit(v), v
         op = r.choice(["+", "-", "*", "quo", "rem", "mod", "abs", "min", "max", "neg", "app", "len", "first", "fld", "fn"])
+        # right operands of arithmetic operators are atoms / calls: a right operand that is itself an operator application
+        # of the same precedence hits the keyed finding javacode:right-nested-binop-no-parens (corpus/C12/nested_minus_parens.as)
         if op in ("+", "-", "*"):
-            (a, va), (b, vb) = self.iexpr(depth - 1), self.iexpr(depth - 1)
+            (a, va), (b, vb) = self.iexpr(depth - 1), self.atom()
             v = _i32({"+": va + vb, "-": va - vb, "*": va * vb}[op])
             self.feat.add("integer")
             return "(%s %s %s)" % (a, op, b), v
         if op in ("quo", "rem", "mod"):
-            (a, va), (b, vb) = self.iexpr(depth - 1), self.iexpr(depth - 1)
+            (a, va), (b, vb) = self.iexpr(depth - 1), self.atom()
             if vb == 0 or (op == "mod" and vb < 0) or (va == I32[0] and vb == -1):
                 raise Reject()
             v = _i32({"quo": _quo, "rem": _rem, "mod": _mod}[op](va, vb))
@@ -558,7 +579,7 @@ class Family:
         return "fail"
 
 
-FAMILY_ENDINGS = ["normal", "normal", "normal", "error", "never", "throw", "union"]
+FAMILY_ENDINGS = ["normal", "normal", "normal", "error", "never", "throw"]      # union endings: ending family + corpus/C12
 
 
 def family_program(rng, steps):
@@ -836,6 +857,8 @@ def generate():
     tr = G.translate(C.SRC, C.R + "/aldor")
     known_bad = G.known_bad_from(C.known_findings())
     C.write_if_changed(GEN, G.emit_coq(tr, known_bad))
+    from props import c04                      # fint_tbl, which java_interp_agree relates the Java table to: regenerated too
+    c04.generate()
     return tr, known_bad
 
 
@@ -884,7 +907,7 @@ def run(rep, tier):
     n_mini = 10 if quick else 150
     for i in range(n_fam):
         p = family_program(rng, rng.randrange(4, 16 if quick else 30))
-        p.update(unit="h%d" % i, family="hand", levels=[q for q in LEVELS if not ("record-alias" in p["features"] and q > 3)])
+        p.update(unit="h%d" % i, family="hand", levels=[q for q in LEVELS if not ("record-alias" in p["features"] and q >= 3)])
         progs.append(p)
     kinds = ["normal", "error", "never", "throw", "halt", "union", "assert"]
     for i in range(n_end):
@@ -1004,7 +1027,9 @@ def run(rep, tier):
         "in input_distribution.mini_filter, rejections counted)",
         "try/catch is outside the supported subset: genjava has no case for FOAM Catch (aborts with `Compiler bug'); uncaught throw, "
         "error, never, assert, halt are inside",
-        "programs with an update through a record alias are not run at -Q9 (keyed finding opt:Q4+:record-alias-stale-field, reproduced "
+        "the hand-written family does not generate an arithmetic operator application as RIGHT operand of an arithmetic operator "
+        "(keyed finding javacode:right-nested-binop-no-parens, reproduced by corpus/C12/nested_minus_parens.as on every run)",
+        "programs with an update through a record alias are run below -Q3 only (keyed finding opt:Q4+:record-alias-stale-field, reproduced "
         "by corpus/C12/record_alias_q4.as on every run)",
         "java.lang.Character methods are modelled on ASCII only; javac, the JVM and foamj's classes are not modelled",
         "translator tools/javabuiltins_gen.py: the meaning of each gj0BCall<Method> generator is hard-wired and its text is checked "
@@ -1019,6 +1044,10 @@ def signature_key(jr, q):
     m = re.search(r"Bug: Java not implemented: ([A-Za-z ]+:? ?[A-Za-z, ]*)", txt)
     if m:
         return "javagen:%s" % re.sub(r"\s+", " ", m.group(1)).strip().rstrip("(").strip()
+    if jr.get("status") == "javac-error":
+        m = re.search(r"error: (code too large|too many constants)", jr.get("err", ""))
+        if m:
+            return "javac:" + m.group(1)
     m = re.search(r'Exception in thread "main" ([\w.]+)', jr.get("err", ""))
     if m:
         fr = re.search(r"^\s*at (foamj\.\w+\.\w+)\(", jr["err"], re.M)
